@@ -49,6 +49,8 @@ def run(ctx: Ctx, lines=LINES):
         jobs_rand.append((ctx.rng.randrange(1 << 30), 100, False, "alias_nested", lines))
     for i in range(4 if ctx.quick else 80):
         jobs_rand.append((ctx.rng.randrange(1 << 30), 50, i % 3 != 2, "limited", lines))
+    for i in range(6 if ctx.quick else 200):
+        jobs_rand.append((ctx.rng.randrange(1 << 30), 50, i % 3 != 2, "forest", lines))
     n_large = 160 if ctx.quick else 6000
     for i in range(n_large // 20):
         jobs_rand.append((ctx.rng.randrange(1 << 30), 20, i % 3 != 2, "large", lines))
